@@ -29,6 +29,10 @@ def is_set_expr(n) -> bool:
         return True
     if isinstance(n, ast.Call) and isinstance(n.func, ast.Name) and n.func.id in ("set", "frozenset"):
         return True
+    # `literal_eval(<source or node>)` yields a real set when the evaluated text / node is a set display: set-capable
+    if isinstance(n, ast.Call) and ((isinstance(n.func, ast.Name) and n.func.id == "literal_eval") or
+                                    (isinstance(n.func, ast.Attribute) and n.func.attr == "literal_eval")):
+        return True
     if isinstance(n, ast.BinOp) and isinstance(n.op, (ast.BitAnd, ast.BitOr, ast.Sub, ast.BitXor)):
         def keysy(x):
             return isinstance(x, ast.Call) and isinstance(x.func, ast.Attribute) and x.func.attr in ("keys", "items") and not x.args
@@ -51,7 +55,8 @@ def classify(node, parent, grand) -> int:
             # method call on the set itself: E.issubset(..), E.__contains__
             return 2 if name in SET_METHODS else 4
         if name == "sorted":
-            return 1
+            # with a key function, elements that compare equal under the key keep the set's own order: not order-free
+            return 4 if any(k.arg == "key" for k in parent.keywords) else 1
         if name in INSENSITIVE or name in SET_METHODS:
             return 2
         if name in ("get", "partial", "rpartial", "contains", "eq", "ne", "is_", "isinstance", "hasattr", "getattr", "Literal", "startswith", "endswith"):
